@@ -115,6 +115,15 @@ static void runRTBSS(const PomdpTables & pt, unsigned h, bool dyadic, Rng & rng,
         }
         emitRTBSS("dense", pt, dense, h, maxR, b, dyadic);
         if (sparseToo) { Sparse sparse(dense); emitRTBSS("sparse", pt, sparse, h, maxR, b, dyadic); }
+        if (i == 0) {
+            // the same instance with every reward shifted below zero and maxR = the (negative) largest reward, exactly as the header documents
+            PomdpTables neg = pt;
+            const double shift = std::ceil(std::max(mr, 0.0)) + 0.5;
+            neg.R.array() -= shift;
+            Dense dneg = toDense(neg);
+            emitRTBSS("dense", neg, dneg, h, trueMaxR(neg), b, dyadic);
+            if (sparseToo) { Sparse sneg(dneg); emitRTBSS("sparse", neg, sneg, h, trueMaxR(neg), b, dyadic); }
+        }
     }
 }
 
